@@ -16,8 +16,8 @@
    Also proved (Proofs/SchemaExtensions.v): an extension the specification predicate refuses (unknown target,
    another kind, a member -- enum value, field, input field, interface, union member -- that exists already, a
    directive the target already carries, a schema directive already there) makes the build fail.
-   PARTIAL: `extend schema` naming an operation twice / an operation whose type is defined is decided per
-   rewritten model by the check (specification predicates in Coq vs create_engine), not proved. *)
+   `extend schema` naming an operation whose root type is already defined is refused (C12_schema_operation_redefinition_refused);
+   an operation extended a second time is reported by the extension validator (schema_ext_ops_twice). *)
 From Coq Require Import ZArith List String Bool.
 From TV Require Import Py.Prelude Model.Schema Model.ImplValidate Model.SchemaBuild Model.SpecSchema Proofs.SchemaProofs Proofs.SchemaInterfaces Proofs.SchemaExtensions
      Gen.Wiring_gen Proofs.Wiring.
@@ -58,6 +58,12 @@ Theorem C12_extension_validators_report_invalid_extensions s g0 :
   initial s = inl g0 -> v_invalid_extension s = true -> validate_extensions g0 (s_exts s) <> [].
 Proof. exact (invalid_extension_reported s g0). Qed.
 
+(* `extend schema { mutation: M }` while the mutation root type is already defined: refused *)
+Theorem C12_schema_operation_redefinition_refused s g0 ops dirs k v :
+  initial s = inl g0 -> In (XSchema ops dirs) (s_exts s) -> In (k, v) ops -> g_has_type g0 (op_name_of g0 k) = true ->
+  builds s = false.
+Proof. exact (schema_operation_redefinition_refused s g0 ops dirs k v). Qed.
+
 (* tie to the current source (regenerated on every run): the validator lists and the order of the
    steps of GraphQLSchema.bake are the ones the build model transcribes *)
 Theorem C12_source_runs_the_modelled_validators :
@@ -86,3 +92,4 @@ Print Assumptions C12_unhonoured_interface_rejected.
 Print Assumptions C12_validator_reports_unhonoured_interfaces.
 Print Assumptions C12_invalid_extension_rejected.
 Print Assumptions C12_extension_validators_report_invalid_extensions.
+Print Assumptions C12_schema_operation_redefinition_refused.
